@@ -103,6 +103,28 @@ def targets():
     for m, a, b in (('chiaverini', 'gc', 'cig'), ('hughes', 'gh', 'hig')):
         ts.append(mk(f'{m}_mixed_gh_q', Q, lambda A, v, m=m, a=a: getattr(O(A), m)(stack(v, a))[0], f'{m}([Rspec q, fixed row])[0]'))
         ts.append(mk(f'{m}_mixed_hig_q', Q, lambda A, v, m=m, b=b: getattr(O(A), m)(stack(v, b))[2], f'{m}([fixed row, identity, Rspec q])[2]'))
+    # the dispatchers on the SPECIFICATION side (theorems C02_dispatch_*): Rspec q through the three routes
+    for m in ('shepperd', 'chiaverini', 'hughes'):
+        ts.append(mk(f'DCM_{m}_q', Q, lambda A, v, m=m: A.DCM(_Rq(v)).to_quaternion(method=m), f"DCM(Rspec q).to_quaternion('{m}')"))
+        ts.append(mk(f'Q_{m}_q', Q, lambda A, v, m=m: A.Quaternion(dcm=_Rq(v), method=m), f"Quaternion(dcm=Rspec q, method='{m}')"))
+        ts.append(mk(f'QA_{m}_q', Q, lambda A, v, m=m: A.QuaternionArray(DCM=symnp.array([_Rq(v)]), method=m)[0],
+                     f"QuaternionArray(DCM=[Rspec q], method='{m}')[0]"))
+    ts.append(mk('DCM_sarabandi_q', Q + ['eta'], lambda A, v: A.DCM(_Rq(v)).to_quaternion(method='sarabandi', threshold=v.eta),
+                 "DCM(Rspec q).to_quaternion('sarabandi', threshold=eta)"))
+    # Bar-Itzhack AFTER the LAPACK call: the eigen-solver is replaced by symbolic (eigenvalues l0..l3, eigenvector matrix v_ij)
+    # through symnp.EIG_STUB, so the column selection, roll/negate and final normalisation of the real code are regenerated
+    LV = ['l0', 'l1', 'l2', 'l3'] + [f'v{i}{j}' for i in range(4) for j in range(4)]
+
+    def post(ver):
+        def fn(A, v):
+            symnp.EIG_STUB = (v.vec(*LV[:4]), v.mat([LV[4:8], LV[8:12], LV[12:16], LV[16:20]]))
+            try:
+                return O(A).itzhack(np.eye(3), version=ver)
+            finally:
+                symnp.EIG_STUB = None
+        return fn
+    for ver in (1, 2, 3):
+        ts.append(mk(f'itzhack_post_v{ver}', LV, post(ver), f'itzhack(version={ver}) after eig/eigh: selection, roll/negate, normalisation'))
     E = RR + ['eta']
     ts.append(mk('DCM_sarabandi_thr_m', E, lambda A, v: A.DCM(_Rm(v)).to_quaternion(method='sarabandi', threshold=v.eta),
                  "DCM(R).to_quaternion('sarabandi', threshold=eta)"))
@@ -113,7 +135,10 @@ def targets():
     return ts
 
 
-STAGES = [['C02_shepperd.v', 'C02_chiaverini.v', 'C02_hughes.v', 'C02_sarabandi.v', 'C02_itzhack.v', 'C02_domain.v'], ['C02.v']]
+STAGES = [['C02_shepperd.v', 'C02_chiaverini.v', 'C02_hughes.v', 'C02_sarabandi.v', 'C02_itzhack.v', 'C02_domain.v',
+           'C02_halfturn.v', 'C02_disp_hughes.v'], ['C02.v']]
+# proofs that take > 40 s: Shepperd through the three dispatchers (every path), Sarabandi with a symbolic threshold through DCM
+STAGES_THOROUGH = [['C02_disp_shepperd.v', 'C02_disp_sarabandi.v', 'C02_disp_chiaverini.v'], ['C02_thorough.v']]
 
 
 # ------------------------------------------------------------------------------------------
@@ -487,6 +512,94 @@ def o_default(inp):
     return None
 
 
+LAYOUTS = ('fortran', 'transpose-view', 'strided-2d', 'strided-stack', 'DCM.I', 'DCM.inv', 'neg-stride')
+LAYOUT_ROUTES = ('DCM.to_quaternion', 'Quaternion(dcm=)', 'Quaternion(dcm=DCM)', 'asarray(DCM)',
+                 'QuaternionArray(DCM=)', 'QuaternionArray(DCM=[DCM])', 'QuaternionArray(DCM=F-stack)', 'QuaternionArray(DCM=T-stack)',
+                 'QuaternionArray(DCM=strided-stack)', 'batch-function(F-stack)')
+
+
+def _layout(R, layout):
+    """the same 3x3 matrix R in a non-C-contiguous memory layout"""
+    import ahrs
+    R = np.array(R, dtype=float)
+    if layout == 'fortran':
+        return np.asfortranarray(R)
+    if layout == 'transpose-view':
+        return R.T.copy().T
+    if layout == 'strided-2d':
+        big = np.full((6, 6), 7.5)
+        big[::2, ::2] = R
+        return big[::2, ::2]
+    if layout == 'strided-stack':
+        st = np.full((5, 3, 3), -3.25)
+        st[2] = R
+        return st[::2][1]
+    if layout == 'neg-stride':
+        return R[::-1, ::-1].copy()[::-1, ::-1]
+    if layout == 'DCM.I':
+        return ahrs.DCM(R.T.copy()).I
+    if layout == 'DCM.inv':
+        return ahrs.DCM(R.T.copy()).inv
+    raise KeyError(layout)
+
+
+def _route_layout(route, method, kw, M, other=None):
+    """run one route on the matrix M given in some layout; `other` is a second rotation used to fill stacks"""
+    import ahrs
+    from ahrs.common import orientation as O
+    mk = {} if method == 'default' else {'method': method}
+    if route == 'DCM.to_quaternion':
+        return np.asarray(ahrs.DCM(M).to_quaternion(**mk, **kw))
+    if route == 'Quaternion(dcm=)':
+        return np.asarray(ahrs.Quaternion(dcm=M, **mk, **kw))
+    if route == 'Quaternion(dcm=DCM)':
+        return np.asarray(ahrs.Quaternion(dcm=ahrs.DCM(M), **mk, **kw))
+    if route == 'QuaternionArray(DCM=)':
+        return np.asarray(ahrs.QuaternionArray(DCM=np.array([other, M]), **mk, **kw))[1]
+    if route == 'QuaternionArray(DCM=[DCM])':
+        return np.asarray(ahrs.QuaternionArray(DCM=np.array([ahrs.DCM(other), ahrs.DCM(M)]), **mk, **kw))[1]
+    Mc, Oc = np.array(M, dtype=float), np.array(other, dtype=float)
+    if route == 'QuaternionArray(DCM=F-stack)':
+        return np.asarray(ahrs.QuaternionArray(DCM=np.asfortranarray(np.array([Oc, Mc, Oc])), **mk, **kw))[1]
+    if route == 'QuaternionArray(DCM=T-stack)':
+        st = np.ascontiguousarray(np.transpose(np.array([Oc, Mc, Oc]), (0, 2, 1)))     # holds the transposes ...
+        return np.asarray(ahrs.QuaternionArray(DCM=np.transpose(st, (0, 2, 1)), **mk, **kw))[1]   # ... viewed back: a transposed stack
+    if route == 'QuaternionArray(DCM=strided-stack)':
+        st = np.array([Oc, Oc, Mc, Mc, Oc, Oc])
+        return np.asarray(ahrs.QuaternionArray(DCM=st[::2], **mk, **kw))[1]
+    if route == 'batch-function(F-stack)':
+        return np.asarray(getattr(O, _canon(method))(np.asfortranarray(np.array([Oc, Mc, Oc]))))[1]
+    raise KeyError(route)
+
+
+def o_layout(inp):
+    """memory layout must not matter: a Fortran-ordered / strided / transposed-view operand (and DCM objects built from one,
+    DCM.I, DCM.inv) gives through every route the same quaternion as its C-contiguous copy, and that quaternion inverts R"""
+    import ahrs
+    q, p = np.array(inp['q'], float), np.array(inp['other'], float)
+    method, kw, route, layout = inp['method'], dict(inp.get('kw', {})), inp['route'], inp['layout']
+    region = inp.get('region', 'generic')
+    R, Ro = cm.Rspec(q), cm.Rspec(p)
+    M = _layout(R, layout)
+    where = f"{route}:{method}{_opt(kw)}"
+    if cm.maxabs(np.array(M, dtype=float), R) > 1e-15:
+        return {'tag': f'{layout}/memory-layout-operand-differs', 'observed': np.array(M, dtype=float), 'expected': R}
+    if route == 'asarray(DCM)':
+        D = ahrs.DCM(M)
+        for nm, A in (('asarray', np.asarray(D)), ('.A', D.A), ('copy', np.array(D)), ('view', D.view(np.ndarray))):
+            if np.shape(A) != (3, 3) or cm.maxabs(np.asarray(A, float), R) > 1e-15:
+                return {'tag': f'asarray(DCM)/memory-layout', 'observed': np.asarray(A, float), 'expected': R, 'note': f'{nm} of DCM({layout} operand)'}
+        return None
+    ref = _route_layout(route, method, kw, np.ascontiguousarray(np.array(R, dtype=float)), Ro)
+    out = _route_layout(route, method, kw, M, Ro)
+    if np.iscomplexobj(out) or np.shape(out) != (4,) or cm.maxabs(np.asarray(out, float), np.asarray(ref, float)) > 1e-15:
+        return {'tag': f'{where}/memory-layout', 'observed': out, 'expected': ref, 'note': f'{layout} operand vs its C-contiguous copy'}
+    if _canon(method) in CLOSED and not _in_trio_domain(q):
+        return None
+    r = _check_q(out, q, R, where + f'[{layout}]', region, loose=_loose(method, kw, q))
+    return r
+
+
 def o_agree(inp):
     """all seven choices agree up to sign on one rotation (through one entry point)"""
     q = np.array(inp['q'], float)
@@ -508,7 +621,7 @@ def o_agree(inp):
     return None
 
 
-ORACLES = {'invert': o_invert, 'batch': o_batch, 'agree': o_agree, 'mixed': o_mixed, 'default': o_default}
+ORACLES = {'invert': o_invert, 'batch': o_batch, 'agree': o_agree, 'mixed': o_mixed, 'default': o_default, 'layout': o_layout}
 
 
 def cm_call(f, inp):
@@ -647,5 +760,27 @@ def search(ctx, scale):
             for entry in ents:
                 inp = {'qs': [r.tolist() for r in rows], 'kinds': ks, 'method': method, 'kw': kw, 'entry': entry}
                 ctx.check('mixed', inp, cm_call(o_mixed, inp), nontrivial_key=(entry, method, _opt(kw), tuple(ks), si))
+    # 5. memory layouts: Fortran-ordered, transposed views, strided slices, DCM.I / DCM.inv, DCM objects as operands
+    lay_choices = CHOICES + OPT_CHOICES[4:5]
+    lay_qs = [(r, q) for r, q in qs if not r.startswith('generic')][::3] + [(r, q) for r, q in qs if r.startswith('generic')][:4 * scale]
+    for i, (region, q) in enumerate(lay_qs):
+        other = pool[(7 * i + 3) % len(pool)]
+        if not _in_trio_domain(other):
+            other = dom[i % len(dom)]
+        for j, (method, kw) in enumerate(lay_choices):
+            if _canon(method) in CLOSED and not _in_trio_domain(q):
+                continue
+            for k, route in enumerate(LAYOUT_ROUTES):
+                if route == 'batch-function(F-stack)' and method not in ('chiaverini', 'hughes'):
+                    continue
+                if route == 'asarray(DCM)' and j > 0:
+                    continue
+                lays = LAYOUTS if (route.startswith(('DCM', 'Quaternion(', 'asarray')) or '[DCM]' in route or route == 'QuaternionArray(DCM=)') else ('fortran',)
+                if scale == 1:
+                    lays = lays[(i + j + k) % len(lays)::3] or lays[:1]
+                for layout in lays:
+                    inp = {'q': q.tolist(), 'other': other.tolist(), 'method': method, 'kw': kw, 'route': route, 'layout': layout,
+                           'region': region, 'entry': route}
+                    ctx.check('layout', inp, cm_call(o_layout, inp), nontrivial_key=(route, method, _opt(kw), layout, i))
     ctx.samples.append({'kind': 'search', 'oracle': 'invert',
                         'input': {'q': qs[9][1].tolist(), 'method': 'hughes', 'kw': {}, 'entry': 'DCM.to_quaternion', 'region': qs[9][0]}})
